@@ -22,7 +22,8 @@ Next ==
     /\ Len(sched) < Depth
     /\ \E roll \in { RandomElement(1..100) } :
        \E a \in { IF roll <= HONEST_PCT
-                  THEN (IF roll % 3 = 0 /\ Interesting(S) # {} THEN RandomElement(Interesting(S)) ELSE RandomElement(Enabled(S)))
+                  THEN (IF roll % 3 = 0 /\ Interesting(S) # {} THEN RandomElement(Interesting(S))
+                        ELSE IF Enabled(S) # {} THEN RandomElement(Enabled(S)) ELSE RandomElement(Allowed(S)))
                   ELSE RandomElement(Allowed(S)) } :
           /\ S' = Step(S, a).S
           /\ sched' = Append(sched, a)
